@@ -26,7 +26,7 @@ from .C15 import apply_model_ramp, defgrad
 PROP = "C01"
 
 EVIDENCE = {
-    "probes_expected": ["fd-probe", "fd-probe-smooth", "kink-discarded", "settled-incompressible-checked", "symmetry-checked", "cache-transparency-checked", "call-order-checked", "parallel-knob-checked", "item:MultiPointContact", "item:MultiPointConstraint", "item:SolidBodyPressure", "item:SolidBodyCauchyStress", "item:FormItem", "item:SolidBodyNearlyIncompressible", "history-state-probe"],
+    "probes_expected": ["fd-probe", "fd-probe-smooth", "kink-discarded", "settled-incompressible-checked", "symmetry-checked", "cache-transparency-checked", "call-order-checked", "repeated-evaluation-checked", "parallel-knob-checked", "item:MultiPointContact", "item:MultiPointConstraint", "item:SolidBodyPressure", "item:SolidBodyCauchyStress", "item:FormItem", "item:SolidBodyNearlyIncompressible", "history-state-probe"],
     "clauses_sampled_only": ["for stateless items the derivative check at a given state is a pure function of that state; only the states (and the cache / link / multiplier protocol through which K and f reach Newton) are history-generated"],
 }
 
@@ -213,6 +213,36 @@ class C01Monitor(jobsim.Monitor):
                     f"{label} K.d differs from the central difference of fun_items by {err:.3e} (|K d|+|g| = {scale:.3e}, direction {dname}, h={h0:g}, worst row {where}, substep ({c['step']},{c['substep']}) iteration {c['iter']})",
                     site="+".join(sorted({s["type"] + (":" + s["umat"]["name"] if "umat" in s else "") for s in self.doc["items"]})),
                 )
+        if self.nprobe % 2 == 1:
+            self.nprobe += 1
+            return
+        # the library's own sums, evaluated repeatedly at one state (modified Newton, line search):
+        # every evaluation gives the same matrix / vector
+        fk4, items4 = self.make_fork(eng, c, it["x"])
+        f_a = _newton_mod.fun_items(items4, fk4.field)
+        K_a = _newton_mod.jac_items(items4, fk4.field).toarray()
+        K_b = _newton_mod.jac_items(items4, fk4.field).toarray()
+        f_b = _newton_mod.fun_items(items4, fk4.field)
+        K_c = _newton_mod.jac_items(items4, fk4.field).toarray()
+        if not self.has_ni:
+            for nm, A_, B_ in (("second", K_a, K_b), ("third", K_a, K_c)):
+                ok, rel = close_exact_twin(A_, B_, atol=1e-11 * max(Kn, 1e-300))
+                if not ok:
+                    self.V("repeatable", f"jac_items evaluated a {nm} time at the same state gives a different matrix (rel {rel:.2e})", site="jac_items.repeated")
+        else:
+            # the condensed state is settled after the second residual evaluation at this field
+            _newton_mod.fun_items(items4, fk4.field)
+            K_d = _newton_mod.jac_items(items4, fk4.field).toarray()
+            ok, rel = close_exact_twin(K_d, K_c, atol=1e-9 * max(Kn, 1e-300), rtol=1e-9)
+            if not ok:
+                self.V("repeatable", f"jac_items at a settled state changes between two evaluations (rel {rel:.2e})", site="jac_items.repeated")
+        ok, rel = close_exact_twin(f_a, f_b, atol=1e-11 * fs)
+        if not ok:
+            self.V("repeatable", f"fun_items evaluated twice at the same state gives different vectors (rel {rel:.2e})", site="fun_items.repeated")
+        ok, rel = close_exact_twin(f_a, f0, atol=1e-11 * fs)
+        if not ok:
+            self.V("cache-transparency", f"fun_items differs from the independent sum over the items (rel {rel:.2e})", site="fun_items.vs-reference")
+        self.log.count("repeated-evaluation-checked")
         # call order: the matrix assembled first on a cold item (incl. the item's own keyword
         # arguments) is the matrix assembled after the vector ------------------------------------------
         fk3, items3 = self.make_fork(eng, c, it["x"])
@@ -238,6 +268,21 @@ class C01Monitor(jobsim.Monitor):
             ok, rel = close_exact_twin(K_first, K_second, atol=1e-11 * (float(np.abs(K_second).max()) + 1e-300))
             if not ok:
                 self.V("call-order", f"matrix of item {k} ({spec['type']}{', pressure= keyword' if kw else ''}) assembled before the vector differs from the one assembled after it (rel {rel:.2e})", site=f"{spec['type']}.matrix-first")
+            # the matrix requested again at another state, without a vector call in between
+            # (hand-written loops that assemble the matrix first; buffers are reused in place)
+            if not kw and spec["type"] in ("SolidBody",):
+                x_here = fk3.vector()
+                x_there = x_here + 1e-3 * xs * self.rng.normal(size=x_here.size)
+                fk3.set_vector(x_there)
+                fld = item.field
+                K_there = item.assemble.matrix(field=fld).toarray()
+                fk5, _ = self.make_fork(eng, c, it["x"])
+                fk5.set_vector(x_there)
+                K_cold = fk5.items[k].assemble.matrix(field=fk5.items[k].field).toarray()
+                fk3.set_vector(x_here)
+                ok, rel = close_exact_twin(K_there, K_cold, rtol=1e-10, atol=1e-11 * (float(np.abs(K_cold).max()) + 1e-300))
+                if not ok:
+                    self.V("call-order", f"matrix of item {k} requested at a new state without a vector call in between differs from a cold item's matrix at that state (rel {rel:.2e})", site=f"{spec['type']}:{spec['umat']['name']}.matrix-at-new-state")
             if kw:
                 # and it is the derivative of the vector assembled with the same keyword
                 n_ = K_second.shape[0]
